@@ -294,6 +294,12 @@ func c03Generated(e *env, base string) error {
 		root := filepath.Join(base, fmt.Sprintf("gen%d", len(batches)))
 		tree := scratch.Tree{"go.mod": fmt.Sprintf("module example.org/c03g%d\n\ngo 1.18\n", len(batches)),
 			"p/types.go": "package p\n\n" + m.Types, "p/conv.go": "package p\n\n" + convs.String()}
+		// the variables blocks of the family (output in the declaring package, where ignoreUnexported differs from accessibility)
+		for rel, content := range m.Pkgs {
+			if strings.HasPrefix(rel, "p/") {
+				tree[rel] = content
+			}
+		}
 		if err := scratch.Write(root, tree); err != nil {
 			return err
 		}
